@@ -5,12 +5,14 @@ package main
 import (
 	"bytes"
 	"fmt"
+	"math/rand"
 	"mime/multipart"
 	"time"
 
 	"github.com/gogo/protobuf/proto"
 	"github.com/golang/snappy"
 	"github.com/prometheus/prometheus/prompb"
+	lokilog "github.com/siglens/siglens/pkg/integrations/loki/log"
 	collogpb "go.opentelemetry.io/proto/otlp/collector/logs/v1"
 	collmetricspb "go.opentelemetry.io/proto/otlp/collector/metrics/v1"
 	coltracepb "go.opentelemetry.io/proto/otlp/collector/trace/v1"
@@ -20,6 +22,7 @@ import (
 	resourcepb "go.opentelemetry.io/proto/otlp/resource/v1"
 	tracepb "go.opentelemetry.io/proto/otlp/trace/v1"
 	gproto "google.golang.org/protobuf/proto"
+	"google.golang.org/protobuf/types/known/timestamppb"
 )
 
 const c17aTs = 1700000000 // the fixed instant of the bootstrap's "old" data; "new" data is written at the time of the boot
@@ -100,6 +103,269 @@ func c17aOtlpTraceBody(ts int64) []byte {
 	}}
 	b, _ := gproto.Marshal(req)
 	return b
+}
+
+// ---------------------------------------------------------------- protobuf bodies, structurally varied
+
+// what a message field may be instead of what the valid body holds: absent, empty, of another kind
+func c17aAnyValue(r *rand.Rand) *commonpb.AnyValue {
+	switch r.Intn(9) {
+	case 0:
+		return nil
+	case 1:
+		return &commonpb.AnyValue{} // no value set
+	case 2:
+		return &commonpb.AnyValue{Value: &commonpb.AnyValue_IntValue{IntValue: -1 << 63}}
+	case 3:
+		return &commonpb.AnyValue{Value: &commonpb.AnyValue_DoubleValue{DoubleValue: 1e308}}
+	case 4:
+		return &commonpb.AnyValue{Value: &commonpb.AnyValue_BoolValue{BoolValue: true}}
+	case 5:
+		return &commonpb.AnyValue{Value: &commonpb.AnyValue_ArrayValue{ArrayValue: &commonpb.ArrayValue{Values: []*commonpb.AnyValue{nil, {}, {Value: &commonpb.AnyValue_StringValue{StringValue: "x"}}}}}}
+	case 6:
+		return &commonpb.AnyValue{Value: &commonpb.AnyValue_KvlistValue{KvlistValue: &commonpb.KeyValueList{Values: []*commonpb.KeyValue{nil, {Key: "k"}, {Key: "", Value: &commonpb.AnyValue{}}}}}}
+	case 7:
+		return &commonpb.AnyValue{Value: &commonpb.AnyValue_BytesValue{BytesValue: []byte{0, 0xff}}}
+	}
+	return &commonpb.AnyValue{Value: &commonpb.AnyValue_StringValue{StringValue: c17aPoolStr(r)}}
+}
+
+func c17aAttrs(r *rand.Rand) []*commonpb.KeyValue {
+	switch r.Intn(6) {
+	case 0:
+		return nil
+	case 1:
+		return []*commonpb.KeyValue{nil}
+	case 2:
+		return []*commonpb.KeyValue{{Key: "", Value: c17aAnyValue(r)}}
+	case 3:
+		return []*commonpb.KeyValue{{Key: "service.name", Value: c17aAnyValue(r)}, {Key: "siglensIndexName", Value: c17aAnyValue(r)}}
+	}
+	return []*commonpb.KeyValue{c17aStrAttr("service.name", "c17svc"), {Key: c17aPoolStr(r), Value: c17aAnyValue(r)}, c17aStrAttr("host", "h1")}
+}
+
+func c17aOtlpLogVariant(r *rand.Rand) []byte {
+	rec := &logpb.LogRecord{TimeUnixNano: uint64(c17aTs) * 1e9, SeverityText: "INFO", Body: c17aAnyValue(r), Attributes: c17aAttrs(r)}
+	switch r.Intn(6) {
+	case 0:
+		rec.TimeUnixNano = 0
+	case 1:
+		rec.TimeUnixNano = 1<<64 - 1
+	case 2:
+		rec.TraceId, rec.SpanId = []byte{1}, bytes.Repeat([]byte{2}, 40)
+	}
+	sl := &logpb.ScopeLogs{Scope: &commonpb.InstrumentationScope{Name: "c17"}, LogRecords: []*logpb.LogRecord{rec}}
+	switch r.Intn(6) {
+	case 0:
+		sl.Scope = nil
+	case 1:
+		sl.LogRecords = []*logpb.LogRecord{nil, rec}
+	case 2:
+		sl.LogRecords = nil
+	}
+	rl := &logpb.ResourceLogs{Resource: &resourcepb.Resource{Attributes: c17aAttrs(r)}, ScopeLogs: []*logpb.ScopeLogs{sl}}
+	switch r.Intn(6) {
+	case 0:
+		rl.Resource = nil
+	case 1:
+		rl.ScopeLogs = []*logpb.ScopeLogs{nil}
+	case 2:
+		rl.ScopeLogs = nil
+	}
+	req := &collogpb.ExportLogsServiceRequest{ResourceLogs: []*logpb.ResourceLogs{rl}}
+	if r.Intn(8) == 0 {
+		req.ResourceLogs = []*logpb.ResourceLogs{nil, rl}
+	}
+	b, _ := gproto.Marshal(req)
+	return b
+}
+
+func c17aOtlpTraceVariant(r *rand.Rand) []byte {
+	tid := bytes.Repeat([]byte{0xc1}, 16)
+	sp := &tracepb.Span{TraceId: tid, SpanId: bytes.Repeat([]byte{0x9e}, 8), Name: "c17op", Kind: tracepb.Span_SPAN_KIND_SERVER,
+		StartTimeUnixNano: uint64(c17aTs) * 1e9, EndTimeUnixNano: uint64(c17aTs)*1e9 + 5e6, Attributes: c17aAttrs(r),
+		Status: &tracepb.Status{Code: tracepb.Status_STATUS_CODE_OK}}
+	switch r.Intn(10) {
+	case 0:
+		sp.TraceId, sp.SpanId = nil, nil
+	case 1:
+		sp.TraceId, sp.SpanId, sp.ParentSpanId = []byte{1}, []byte{2, 3}, bytes.Repeat([]byte{7}, 33)
+	case 2:
+		sp.Status = nil
+	case 3:
+		sp.EndTimeUnixNano = 0 // ends before it starts
+	case 4:
+		sp.Events = []*tracepb.Span_Event{nil, {Name: "e", Attributes: c17aAttrs(r)}}
+	case 5:
+		sp.Links = []*tracepb.Span_Link{nil, {TraceId: []byte{1}, Attributes: c17aAttrs(r)}}
+	case 6:
+		sp.Kind = tracepb.Span_SpanKind(99)
+	case 7:
+		sp.Status = &tracepb.Status{Code: tracepb.Status_StatusCode(77), Message: c17aPoolStr(r)}
+	case 8:
+		sp.Name = c17aPoolStr(r)
+	}
+	ss := &tracepb.ScopeSpans{Scope: &commonpb.InstrumentationScope{Name: "c17"}, Spans: []*tracepb.Span{sp}}
+	switch r.Intn(6) {
+	case 0:
+		ss.Scope = nil
+	case 1:
+		ss.Spans = []*tracepb.Span{nil, sp}
+	case 2:
+		ss.Spans = nil
+	}
+	rs := &tracepb.ResourceSpans{Resource: &resourcepb.Resource{Attributes: c17aAttrs(r)}, ScopeSpans: []*tracepb.ScopeSpans{ss}}
+	switch r.Intn(6) {
+	case 0:
+		rs.Resource = nil
+	case 1:
+		rs.ScopeSpans = []*tracepb.ScopeSpans{nil}
+	}
+	req := &coltracepb.ExportTraceServiceRequest{ResourceSpans: []*tracepb.ResourceSpans{rs}}
+	if r.Intn(8) == 0 {
+		req.ResourceSpans = []*tracepb.ResourceSpans{nil, rs}
+	}
+	b, _ := gproto.Marshal(req)
+	return b
+}
+
+func c17aOtlpMetricVariant(r *rand.Rand) []byte {
+	ndp := func() *metricspb.NumberDataPoint {
+		dp := &metricspb.NumberDataPoint{Attributes: c17aAttrs(r), TimeUnixNano: uint64(c17aTs) * 1e9, Value: &metricspb.NumberDataPoint_AsDouble{AsDouble: 1}}
+		switch r.Intn(6) {
+		case 0:
+			dp.Value = nil
+		case 1:
+			dp.Value = &metricspb.NumberDataPoint_AsInt{AsInt: -1 << 63}
+		case 2:
+			dp.TimeUnixNano = 0
+		case 3:
+			dp.TimeUnixNano = 1<<64 - 1
+		}
+		return dp
+	}
+	sum := 3.0
+	hdp := &metricspb.HistogramDataPoint{Attributes: c17aAttrs(r), TimeUnixNano: uint64(c17aTs) * 1e9, Count: 3, Sum: &sum, BucketCounts: []uint64{1, 2}, ExplicitBounds: []float64{1}}
+	switch r.Intn(6) {
+	case 0:
+		hdp.BucketCounts = []uint64{1} // fewer counts than bounds + 1
+	case 1:
+		hdp.BucketCounts, hdp.ExplicitBounds = nil, []float64{1, 2, 3}
+	case 2:
+		hdp.Sum = nil
+	case 3:
+		hdp.BucketCounts = []uint64{1, 2, 3, 4, 5}
+	}
+	var m *metricspb.Metric
+	switch r.Intn(9) {
+	case 0:
+		m = &metricspb.Metric{Name: "c17v"} // no data at all
+	case 1:
+		m = &metricspb.Metric{Name: "c17v", Data: &metricspb.Metric_Gauge{}}
+	case 2:
+		m = &metricspb.Metric{Name: "c17v", Data: &metricspb.Metric_Gauge{Gauge: &metricspb.Gauge{DataPoints: []*metricspb.NumberDataPoint{nil, ndp()}}}}
+	case 3:
+		m = &metricspb.Metric{Name: "c17v", Data: &metricspb.Metric_Sum{Sum: &metricspb.Sum{DataPoints: []*metricspb.NumberDataPoint{ndp()}}}}
+	case 4:
+		m = &metricspb.Metric{Name: "c17v", Data: &metricspb.Metric_Histogram{Histogram: &metricspb.Histogram{DataPoints: []*metricspb.HistogramDataPoint{hdp}}}}
+	case 5:
+		m = &metricspb.Metric{Name: "c17v", Data: &metricspb.Metric_Histogram{Histogram: &metricspb.Histogram{DataPoints: []*metricspb.HistogramDataPoint{nil}}}}
+	case 6:
+		m = &metricspb.Metric{Name: "c17v", Data: &metricspb.Metric_Summary{Summary: &metricspb.Summary{DataPoints: []*metricspb.SummaryDataPoint{{Attributes: c17aAttrs(r), Count: 1, Sum: 1, QuantileValues: []*metricspb.SummaryDataPoint_ValueAtQuantile{nil, {Quantile: 0.5, Value: 1}}}}}}}
+	case 7:
+		m = &metricspb.Metric{Name: "c17v", Data: &metricspb.Metric_ExponentialHistogram{ExponentialHistogram: &metricspb.ExponentialHistogram{DataPoints: []*metricspb.ExponentialHistogramDataPoint{{Attributes: c17aAttrs(r), Count: 1}}}}}
+	default:
+		m = &metricspb.Metric{Name: c17aPoolStr(r), Data: &metricspb.Metric_Gauge{Gauge: &metricspb.Gauge{DataPoints: []*metricspb.NumberDataPoint{ndp()}}}}
+	}
+	sm := &metricspb.ScopeMetrics{Metrics: []*metricspb.Metric{m}}
+	switch r.Intn(6) {
+	case 0:
+		sm.Metrics = []*metricspb.Metric{nil, m}
+	case 1:
+		sm.Metrics = nil
+	}
+	rm := &metricspb.ResourceMetrics{Resource: &resourcepb.Resource{Attributes: c17aAttrs(r)}, ScopeMetrics: []*metricspb.ScopeMetrics{sm}}
+	switch r.Intn(6) {
+	case 0:
+		rm.Resource = nil
+	case 1:
+		rm.ScopeMetrics = []*metricspb.ScopeMetrics{nil}
+	}
+	req := &collmetricspb.ExportMetricsServiceRequest{ResourceMetrics: []*metricspb.ResourceMetrics{rm}}
+	if r.Intn(8) == 0 {
+		req.ResourceMetrics = []*metricspb.ResourceMetrics{nil, rm}
+	}
+	b, _ := gproto.Marshal(req)
+	return b
+}
+
+func c17aPromVariant(r *rand.Rand) []byte {
+	ts := prompb.TimeSeries{Labels: []prompb.Label{{Name: "__name__", Value: "c17v"}, {Name: "host", Value: "h1"}}, Samples: []prompb.Sample{{Value: 1, Timestamp: c17aTs * 1000}}}
+	switch r.Intn(10) {
+	case 0:
+		ts.Labels = nil
+	case 1:
+		ts.Labels = []prompb.Label{{Name: "host", Value: "h1"}} // no metric name
+	case 2:
+		ts.Labels = []prompb.Label{{Name: "__name__", Value: ""}, {Name: "", Value: ""}}
+	case 3:
+		ts.Samples = nil
+	case 4:
+		ts.Samples = []prompb.Sample{{Value: 1, Timestamp: -1}, {Value: 1, Timestamp: 1<<63 - 1}, {Value: 1, Timestamp: 0}}
+	case 5:
+		ts.Labels = append(ts.Labels, prompb.Label{Name: "host", Value: "h2"}, prompb.Label{Name: "__name__", Value: "other"}) // duplicates
+	case 6:
+		ts.Labels = []prompb.Label{{Name: "__name__", Value: c17aPoolStr(r)}, {Name: c17aPoolStr(r), Value: c17aPoolStr(r)}}
+	case 7:
+		ts.Exemplars = []prompb.Exemplar{{Value: 1, Timestamp: 1}}
+		ts.Histograms = []prompb.Histogram{{Sum: 1}}
+	}
+	wr := &prompb.WriteRequest{Timeseries: []prompb.TimeSeries{ts}}
+	if r.Intn(6) == 0 {
+		wr.Metadata = []prompb.MetricMetadata{{MetricFamilyName: "c17v", Help: "h", Unit: "u"}}
+	}
+	if r.Intn(8) == 0 {
+		wr.Timeseries = nil
+	}
+	b, _ := proto.Marshal(wr)
+	if r.Intn(8) == 0 {
+		return b // not compressed
+	}
+	return snappy.Encode(nil, b)
+}
+
+func c17aLokiProtoBody(r *rand.Rand) []byte {
+	e := &lokilog.EntryAdapter{Timestamp: timestamppb.New(time.Unix(c17aTs, 0)), Line: "foo line a=1"}
+	st := &lokilog.StreamAdapter{Labels: `{host="h1", b="x"}`, Entries: []*lokilog.EntryAdapter{e}}
+	if r != nil {
+		switch r.Intn(10) {
+		case 0:
+			st.Labels = ""
+		case 1:
+			st.Labels = c17aPoolStr(r)
+		case 2:
+			st.Entries = nil
+		case 3:
+			e.Timestamp = nil
+		case 4:
+			e.Line = ""
+		case 5:
+			st.Entries = []*lokilog.EntryAdapter{nil, e}
+		case 6:
+			e.Timestamp = &timestamppb.Timestamp{Seconds: -1 << 62, Nanos: -5}
+		case 7:
+			st.Labels = `{host="h1", b}`
+		}
+	}
+	req := &lokilog.PushRequest{Streams: []*lokilog.StreamAdapter{st}}
+	if r != nil && r.Intn(8) == 0 {
+		req.Streams = []*lokilog.StreamAdapter{nil, st}
+	}
+	b, _ := gproto.Marshal(req)
+	if r != nil && r.Intn(8) == 0 {
+		return b
+	}
+	return snappy.Encode(nil, b)
 }
 
 func c17aUploadBody() ([]byte, string) {
@@ -221,6 +487,9 @@ func c17aRoutes() []c17aRoute {
 		{srv: "q", method: "POST", path: E + "/{indexName}/{docType}/_search", pv: map[string]string{"indexName": "ind-0", "docType": "t"}, ctype: c17aJ, body: mq, text: "body::es"},
 		{srv: "q", method: "GET", path: E + "/{indexName}/{docType}/_search", pv: map[string]string{"indexName": "ind-0", "docType": "t"}, ctype: c17aJ, body: mq, text: "body::es"},
 		{srv: "q", method: "POST", path: E + "/_search", query: "scroll=1m", ctype: c17aJ, body: `{"scroll":"1m","scroll_id":"c17scroll"}`},
+		{srv: "q", method: "POST", path: E + "/{indexName}/_search", pv: map[string]string{"indexName": "ind-0"}, query: "scroll=1m", ctype: c17aJ, body: `{"query":{"match":{"b":"x"}},"size":1}`, text: "body::es", weight: 3},
+		{srv: "q", method: "POST", path: E + "/{indexName}/_search", pv: map[string]string{"indexName": "ind-0"}, query: "scroll=1m&rest_total_hits_as_int=true", ctype: c17aJ, body: `{"query":{"match_all":{}},"size":1}`, weight: 2},
+		{srv: "q", method: "POST", path: E + "/{indexName}/_search", pv: map[string]string{"indexName": "ind-0"}, query: "scroll=1m", ctype: c17aJ, body: `{"query":{"match":{"b":"nosuchvalue"}},"size":5}`, weight: 2},
 		{srv: "q", method: "GET", path: E + "/{indexName}/{docType}/{idVal}", pv: map[string]string{"indexName": "ind-0", "docType": "_doc", "idVal": "1"}, weight: 3},
 		{srv: "q", method: "HEAD", path: E + "/{indexName}/{docType}/{idVal}", pv: map[string]string{"indexName": "ind-0", "docType": "_doc", "idVal": "1"}},
 		{srv: "q", method: "GET", path: E + "/"},
@@ -376,10 +645,11 @@ func c17aRoutes() []c17aRoute {
 		{srv: "i", method: "GET", path: "/services/collector/health/1.0"},
 		{srv: "i", method: "POST", path: O + "/api/put", ctype: c17aJ, body: `[{"metric":"c17in","tags":{"host":"h1","job":"c17"},"timestamp":1700000000,"value":1.5},{"metric":"c17in","tags":{"host":"h2"},"timestamp":1700000001000,"value":2}]`, weight: 3},
 		{srv: "i", method: "PUT", path: O + "/api/put", ctype: c17aJ, body: `{"metric":"c17in","tags":{"host":"h1"},"timestamp":1700000000,"value":1}`},
-		{srv: "i", method: "POST", path: P + "/api/v1/write", ctype: c17aPB, hdr: [][2]string{{"Content-Encoding", "snappy"}, {"X-Prometheus-Remote-Write-Version", "0.1.0"}}, bin: func() []byte { return c17aPromBody(c17aTs) }, weight: 3},
-		{srv: "i", method: "POST", path: OT + "/v1/traces", ctype: c17aPB, bin: func() []byte { return c17aOtlpTraceBody(c17aTs) }, weight: 3},
-		{srv: "i", method: "POST", path: OT + "/v1/logs", ctype: c17aPB, bin: func() []byte { return c17aOtlpLogBody(c17aTs) }, weight: 3},
-		{srv: "i", method: "POST", path: OT + "/v1/metrics", ctype: c17aPB, bin: func() []byte { return c17aOtlpMetricBody(c17aTs) }, weight: 3},
+		{srv: "i", method: "POST", path: P + "/api/v1/write", ctype: c17aPB, hdr: [][2]string{{"Content-Encoding", "snappy"}, {"X-Prometheus-Remote-Write-Version", "0.1.0"}}, bin: func() []byte { return c17aPromBody(c17aTs) }, binv: c17aPromVariant, weight: 4},
+		{srv: "i", method: "POST", path: OT + "/v1/traces", ctype: c17aPB, bin: func() []byte { return c17aOtlpTraceBody(c17aTs) }, binv: c17aOtlpTraceVariant, weight: 4},
+		{srv: "i", method: "POST", path: OT + "/v1/logs", ctype: c17aPB, bin: func() []byte { return c17aOtlpLogBody(c17aTs) }, binv: c17aOtlpLogVariant, weight: 4},
+		{srv: "i", method: "POST", path: OT + "/v1/metrics", ctype: c17aPB, bin: func() []byte { return c17aOtlpMetricBody(c17aTs) }, binv: c17aOtlpMetricVariant, weight: 4},
+		{srv: "i", method: "POST", path: "/loki/api/v1/push", ctype: c17aPB, bin: func() []byte { return c17aLokiProtoBody(nil) }, binv: c17aLokiProtoBody, weight: 3},
 	}
 	return rts
 }
